@@ -140,6 +140,39 @@ def flush_jobs(wd, tier):
     return jobs
 
 
+def pools_validation(oc, traces, extra_cov):
+    """executions with a bounded store / relay pool, validated as behaviours of the design model QueuePools
+    (spec/Trace_QueuePoolsD.tla): who holds a slot of which pool at every quiescent point"""
+    from .. import qpools
+    from ..common import MachineryError
+    proj = [p_ for p_ in (qpools.project(tr) for tr in traces) if p_]
+    if not proj:
+        return
+    cls = {tr['id']: tr.get('cls', 'any') for tr in traces}
+    can = None
+    for p_ in proj:         # binding canary: a relay answer removed from the log
+        ks = [i for i, e in enumerate(p_['ev']) if e['t'] == 'att_end']
+        if ks:
+            can = copy.deepcopy(p_)
+            can['id'] = max(x['id'] for x in proj) + 1
+            del can['ev'][ks[0]]
+            break
+    r = qpools.validate(proj + ([can] if can else []))
+    ver = r['verdicts']
+    can_ok = bool(can) and ver.pop(can['id'])[0] == 'OK'
+    drift, samples = {}, []
+    for tid, (v, d) in sorted(ver.items()):
+        if v != 'OK':
+            drift[cls[tid]] = drift.get(cls[tid], 0) + 1
+            if len(samples) < 3:
+                samples.append({'trace_id': tid, 'cls': cls[tid], 'verdict': v, 'detail': d})
+    if can_ok and not drift and not oc.violations:
+        raise MachineryError('binding canary accepted by Trace_QueuePoolsD: a relay answer removed from the log')
+    extra_cov['design_model_validation_pools'] = {
+        'module': 'Trace_QueuePoolsD (EXTENDS QueuePools)', 'traces': len(proj), 'accepted': sum(1 for v in ver.values() if v[0] == 'OK'),
+        'drift': drift, 'tlc_states': r['states'], 'wall_s': r['wall_s'], 'canary_rejected': bool(can) and not can_ok, 'drift_samples': samples}
+
+
 def model_validation(prop, extra_cov):
     """post-processing hook: the same real executions, validated as behaviours of the design model QueueCore itself
     (spec/Trace_QueueCore.tla): drift is reported, what the model's own `viol` flags on a real execution is a violation"""
@@ -147,6 +180,7 @@ def model_validation(prop, extra_cov):
     from ..common import MachineryError
 
     def post(oc, traces, summaries):
+        pools_validation(oc, traces, extra_cov)
         proj, skipped = [], 0
         for tr in traces:
             p_ = qcore.project(tr)
